@@ -11,7 +11,7 @@ def run(tier, seed):
     return run_kx(
         "C16", tier, seed,
         oracles=ORACLES,
-        capacities=[1] if tier == "quick" else [1, "default"],
+        capacities=[1],
         flavour="full" if tier == "quick" else "wide",
         opts_extra={"scalings": (1, 2, 10, 10000), "deviations": False},
         rule="every (kernel, index) meeting the hypothesis (every tensor that has the index - output included - "
